@@ -176,6 +176,12 @@ func init() {
 		},
 		vxPkg + "MapOrder": func(fr *frame, a []value) value {
 			fr.ex().mapOrderSymbolic = a[0].(bool)
+			fr.ex().mapOrderIn = ""
+			return nil
+		},
+		vxPkg + "MapOrderIn": func(fr *frame, a []value) value {
+			fr.ex().mapOrderIn = str(a[0])
+			fr.ex().mapOrderSymbolic = fr.ex().mapOrderIn != ""
 			return nil
 		},
 		vxPkg + "Or": func(fr *frame, a []value) value {
@@ -190,9 +196,9 @@ func init() {
 		vxPkg + "Implies": func(fr *frame, a []value) value {
 			return mkScalar(sym.Implies(termOf(a[0], false), termOf(a[1], false)), types.Bool)
 		},
-		vxPkg + "Ite":     nativeIte,
-		vxPkg + "IteByte": nativeIte,
-		vxPkg + "IteF":    nativeIte,
+		vxPkg + "Ite":      nativeIte,
+		vxPkg + "IteByte":  nativeIte,
+		vxPkg + "IteF":     nativeIte,
 		vxPkg + "Symbolic": func(fr *frame, a []value) value { return true },
 		vxPkg + "Tier":     func(fr *frame, a []value) value { return fr.ex().cfg.Tier },
 		vxPkg + "ObserveInt": func(fr *frame, a []value) value {
@@ -747,28 +753,28 @@ func regStd() {
 		},
 
 		// ---- searching ----
-		"strings.Index":      func(fr *frame, a []value) value { return indexOf(fr, seqBytes(a[0]), seqBytes(a[1]), 0) },
-		"bytes.Index":        func(fr *frame, a []value) value { return indexOf(fr, seqBytes(a[0]), seqBytes(a[1]), 0) },
-		"strings.Contains":   func(fr *frame, a []value) value { return indexOf(fr, seqBytes(a[0]), seqBytes(a[1]), 0) >= 0 },
-		"bytes.Contains":     func(fr *frame, a []value) value { return indexOf(fr, seqBytes(a[0]), seqBytes(a[1]), 0) >= 0 },
-		"strings.LastIndex":  func(fr *frame, a []value) value { return lastIndexOf(fr, seqBytes(a[0]), seqBytes(a[1])) },
-		"bytes.LastIndex":    func(fr *frame, a []value) value { return lastIndexOf(fr, seqBytes(a[0]), seqBytes(a[1])) },
-		"strings.IndexByte":  func(fr *frame, a []value) value { return indexOf(fr, seqBytes(a[0]), []value{a[1]}, 0) },
-		"bytes.IndexByte":    func(fr *frame, a []value) value { return indexOf(fr, seqBytes(a[0]), []value{a[1]}, 0) },
-		"strings.LastIndexByte": func(fr *frame, a []value) value { return lastIndexOf(fr, seqBytes(a[0]), []value{a[1]}) },
-		"bytes.LastIndexByte":   func(fr *frame, a []value) value { return lastIndexOf(fr, seqBytes(a[0]), []value{a[1]}) },
-		"internal/bytealg.IndexByte":       func(fr *frame, a []value) value { return indexOf(fr, seqBytes(a[0]), []value{a[1]}, 0) },
-		"internal/bytealg.IndexByteString": func(fr *frame, a []value) value { return indexOf(fr, seqBytes(a[0]), []value{a[1]}, 0) },
+		"strings.Index":                        func(fr *frame, a []value) value { return indexOf(fr, seqBytes(a[0]), seqBytes(a[1]), 0) },
+		"bytes.Index":                          func(fr *frame, a []value) value { return indexOf(fr, seqBytes(a[0]), seqBytes(a[1]), 0) },
+		"strings.Contains":                     func(fr *frame, a []value) value { return indexOf(fr, seqBytes(a[0]), seqBytes(a[1]), 0) >= 0 },
+		"bytes.Contains":                       func(fr *frame, a []value) value { return indexOf(fr, seqBytes(a[0]), seqBytes(a[1]), 0) >= 0 },
+		"strings.LastIndex":                    func(fr *frame, a []value) value { return lastIndexOf(fr, seqBytes(a[0]), seqBytes(a[1])) },
+		"bytes.LastIndex":                      func(fr *frame, a []value) value { return lastIndexOf(fr, seqBytes(a[0]), seqBytes(a[1])) },
+		"strings.IndexByte":                    func(fr *frame, a []value) value { return indexOf(fr, seqBytes(a[0]), []value{a[1]}, 0) },
+		"bytes.IndexByte":                      func(fr *frame, a []value) value { return indexOf(fr, seqBytes(a[0]), []value{a[1]}, 0) },
+		"strings.LastIndexByte":                func(fr *frame, a []value) value { return lastIndexOf(fr, seqBytes(a[0]), []value{a[1]}) },
+		"bytes.LastIndexByte":                  func(fr *frame, a []value) value { return lastIndexOf(fr, seqBytes(a[0]), []value{a[1]}) },
+		"internal/bytealg.IndexByte":           func(fr *frame, a []value) value { return indexOf(fr, seqBytes(a[0]), []value{a[1]}, 0) },
+		"internal/bytealg.IndexByteString":     func(fr *frame, a []value) value { return indexOf(fr, seqBytes(a[0]), []value{a[1]}, 0) },
 		"internal/bytealg.LastIndexByte":       func(fr *frame, a []value) value { return lastIndexOf(fr, seqBytes(a[0]), []value{a[1]}) },
 		"internal/bytealg.LastIndexByteString": func(fr *frame, a []value) value { return lastIndexOf(fr, seqBytes(a[0]), []value{a[1]}) },
-		"internal/bytealg.Index":       func(fr *frame, a []value) value { return indexOf(fr, seqBytes(a[0]), seqBytes(a[1]), 0) },
-		"internal/bytealg.IndexString": func(fr *frame, a []value) value { return indexOf(fr, seqBytes(a[0]), seqBytes(a[1]), 0) },
-		"internal/stringslite.Index":     func(fr *frame, a []value) value { return indexOf(fr, seqBytes(a[0]), seqBytes(a[1]), 0) },
-		"internal/stringslite.IndexByte": func(fr *frame, a []value) value { return indexOf(fr, seqBytes(a[0]), []value{a[1]}, 0) },
-		"strings.Count":                 func(fr *frame, a []value) value { return countOf(fr, seqBytes(a[0]), seqBytes(a[1])) },
-		"bytes.Count":                   func(fr *frame, a []value) value { return countOf(fr, seqBytes(a[0]), seqBytes(a[1])) },
-		"internal/bytealg.Count":        func(fr *frame, a []value) value { return countOf(fr, seqBytes(a[0]), []value{a[1]}) },
-		"internal/bytealg.CountString":  func(fr *frame, a []value) value { return countOf(fr, seqBytes(a[0]), []value{a[1]}) },
+		"internal/bytealg.Index":               func(fr *frame, a []value) value { return indexOf(fr, seqBytes(a[0]), seqBytes(a[1]), 0) },
+		"internal/bytealg.IndexString":         func(fr *frame, a []value) value { return indexOf(fr, seqBytes(a[0]), seqBytes(a[1]), 0) },
+		"internal/stringslite.Index":           func(fr *frame, a []value) value { return indexOf(fr, seqBytes(a[0]), seqBytes(a[1]), 0) },
+		"internal/stringslite.IndexByte":       func(fr *frame, a []value) value { return indexOf(fr, seqBytes(a[0]), []value{a[1]}, 0) },
+		"strings.Count":                        func(fr *frame, a []value) value { return countOf(fr, seqBytes(a[0]), seqBytes(a[1])) },
+		"bytes.Count":                          func(fr *frame, a []value) value { return countOf(fr, seqBytes(a[0]), seqBytes(a[1])) },
+		"internal/bytealg.Count":               func(fr *frame, a []value) value { return countOf(fr, seqBytes(a[0]), []value{a[1]}) },
+		"internal/bytealg.CountString":         func(fr *frame, a []value) value { return countOf(fr, seqBytes(a[0]), []value{a[1]}) },
 		"bytes.Equal": func(fr *frame, a []value) value {
 			x, y := a[0].([]value), a[1].([]value)
 			return mkScalar(eqString(mkStr(x), mkStr(y)), types.Bool)
@@ -785,9 +791,9 @@ func regStd() {
 			}
 			return out
 		},
-		"bytes.Compare":            nativeCompare,
-		"strings.Compare":          nativeCompare,
-		"internal/bytealg.Compare": nativeCompare,
+		"bytes.Compare":                  nativeCompare,
+		"strings.Compare":                nativeCompare,
+		"internal/bytealg.Compare":       nativeCompare,
 		"internal/bytealg.CompareString": nativeCompare,
 		"strings.ToLower": func(fr *frame, a []value) value {
 			if s, ok := a[0].(string); ok {
@@ -974,7 +980,7 @@ func regStd() {
 		"fmt.Fprint":   func(fr *frame, a []value) value { return tuple{0, iface{}} },
 		"log.Printf":   nop, "log.Println": nop, "log.Print": nop,
 		"(*log.Logger).Printf": nop, "(*log.Logger).Println": nop, "(*log.Logger).Print": nop,
-		"(*log.Logger).Output": func(fr *frame, a []value) value { return iface{} },
+		"(*log.Logger).Output":    func(fr *frame, a []value) value { return iface{} },
 		"(*log.Logger).SetOutput": nop, "(*log.Logger).SetFlags": nop, "(*log.Logger).SetPrefix": nop,
 		"log.New": func(fr *frame, a []value) value {
 			pkg := fr.i.prog.ImportedPackage("log")
@@ -986,10 +992,10 @@ func regStd() {
 			var cell value = zero(pkg.Type("Logger").Type())
 			return &cell
 		},
-		"os.Getenv": func(fr *frame, a []value) value { return "" },
-		"os.Exit":   func(fr *frame, a []value) value { panic(exitPanic(asInt64(a[0]))) },
+		"os.Getenv":  func(fr *frame, a []value) value { return "" },
+		"os.Exit":    func(fr *frame, a []value) value { panic(exitPanic(asInt64(a[0]))) },
 		"runtime.GC": nop, "runtime.Gosched": nop,
-		"runtime.KeepAlive": nop,
+		"runtime.KeepAlive":  nop,
 		"(*sync.Mutex).Lock": nop, "(*sync.Mutex).Unlock": nop, "(*sync.RWMutex).Lock": nop, "(*sync.RWMutex).Unlock": nop,
 		"(*sync.RWMutex).RLock": nop, "(*sync.RWMutex).RUnlock": nop,
 		"(*sync.Once).Do": func(fr *frame, a []value) value {
@@ -1126,8 +1132,8 @@ func regStd() {
 			}
 			panic(pathEnd{status: stUnsupported, detail: "math.Mod symbolic"})
 		},
-		"math.Inf":   func(fr *frame, a []value) value { return math.Inf(int(asInt64(a[0]))) },
-		"math.NaN":   func(fr *frame, a []value) value { return math.NaN() },
+		"math.Inf": func(fr *frame, a []value) value { return math.Inf(int(asInt64(a[0]))) },
+		"math.NaN": func(fr *frame, a []value) value { return math.NaN() },
 		"math.IsNaN": func(fr *frame, a []value) value {
 			if x, ok := a[0].(float64); ok {
 				return math.IsNaN(x)
